@@ -11,7 +11,7 @@ ID = "C01"
 LEVEL = "model_checking"
 DESIGN_REF = "DESIGN.md 4 / C01"
 RULE = ("bounded-exhaustive enumeration, level by level, of every connected labelled multigraph topology x "
-        "kind assignment (plus the family of well-posed small networks with one extra branch whose two terminals are the same node) x orientation bitmask x reference node x label tuple x value palette x id scheme; "
+        "kind assignment (plus ladders of 2..6(8) sections, rings of 3..6(8) elements with every source position and complete graphs K3..K5 over a short list of kind patterns, up to 10 nodes / 17 branches; plus the family of well-posed small networks with one extra branch whose two terminals are the same node) x orientation bitmask x reference node x label tuple x value palette x id scheme; "
         "shards partition the space so every input is generated once; an input is counted in states when it is "
         "well-posed (exact determinant over Q(i) of its tableau, decided per topology/kind/palette class) and "
         "judged; non-trivial = judged and the reference solution is not identically zero; distinctness is by "
@@ -60,7 +60,11 @@ def shards(tier):
         for ti in range(len(topos)):
             for ch in sp.chunks(range(len(allk)), per):
                 out.append(("N(%d,%d)|K%d" % (n, b, len(kinds)), (n, b, ti, kinds, ch[0], ch[-1] + 1, pals, labs, full)))
-    return out + selfloop_shards(tier)
+    out += selfloop_shards(tier)
+    nfam = sum(1 for _ in cm.structured_netlists(tier))
+    for i in range(0, nfam, 4):
+        out.append(("structured families (ladders, rings, complete graphs)", ("fam", i, min(nfam, i + 4), tier)))
+    return out
 
 
 SELF_KINDS = ("Z", "Y", "I", "LI", "LV", "load")
@@ -100,6 +104,31 @@ def run_selfloop(desc, res):
                             judge({"ref": base["ref"], "branches": br}, "real", res, keys)
 
 
+LABELS_LONG = ["0", "1", "2", "3", "4", "5", "6", "7", "8", "9", "10", "11"]
+LABELS_LONG_ODD = ["a", "B", "9", "10", "_x", "Zz", "b2", "0x", "C", "c", "100", "Aa"]
+
+
+def run_families(desc, res):
+    _, i0, i1, tier = desc
+    keys = set()
+    for idx, (fam, br) in enumerate(cm.structured_netlists(tier)):
+        if idx < i0 or idx >= i1:
+            continue
+        nn = 1 + max(max(int(b[0][1:]), int(b[1][1:])) for b in br)
+        for pal in (("real", "cplx", "dec") if tier == "thorough" else ("real", "cplx")):
+            for labels in (LABELS_LONG, LABELS_LONG_ODD):
+                for ids_desc in (False, True):
+                    for flip in (0, 0b0101010101010101, 0b1111111111111111):
+                        branches = cm.instantiate(br, pal, labels, ids_desc, flip)
+                        nl0 = {"ref": labels[0], "branches": branches}
+                        res["evals"] += nn
+                        if not rn.well_posed(nl0):
+                            bump(res["skipped"], "ill_posed_family_member", nn)
+                            continue
+                        for r in range(nn):
+                            judge({"ref": labels[r], "branches": branches}, pal, res, keys)
+
+
 def labels_for(name, n):
     return sp.LABELS_PLAIN[:n] if name == "plain" else sp.LABELS_ODD[:n]
 
@@ -108,6 +137,9 @@ def run_shard(desc):
     res = new_result()
     if desc[0] == "self":
         run_selfloop(desc, res)
+        return res
+    if desc[0] == "fam":
+        run_families(desc, res)
         return res
     n, b, ti, kinds, k0, k1, pals, labs, full = desc
     topo = sp.topologies(n, b)[ti]
